@@ -481,6 +481,28 @@ def analyse_refill(fn):
             c = cond(node["cond"], env)
             if ir.leaves_function(node.get("then")) and "peek()" in repr(c) and ("-1" in repr(c) or "eof" in repr(c).lower()):
                 pre_ok = True
+    # ... and no normal exit lies between the refill and that test (`if (!finished) return;` in front of it would let an
+    # empty window out whenever the stream stored nothing without reaching its end)
+    if post_ok and not pre_ok:
+        established = False
+        for i, (st, g, loops) in enumerate(leafs):
+            if i <= idx_end:
+                continue
+            if st.get("k") == "IfCond":
+                node = st["node"]
+                c = cond(node["cond"], env)
+                parts = c[1:] if c[0] == "or" else [c]
+                if ir.leaves_function(node.get("then")) and any(is_empty_window_test(p) for p in parts):
+                    established = True
+                continue
+            if st.get("k") == "Return" and not established:
+                atoms = conjuncts(g)
+                nonempty = any(a == ("cmp", "!=", "this.m_end", "this.m_p") or a == ("cmp", "!=", "this.m_p", "this.m_end") or
+                               a == ("cmp", "<", "this.m_p", "this.m_end") for a in atoms)
+                if not nonempty and ir.f_and(g, refill_guard) != ("F",):
+                    return False, st.get("l", fn["line"]), \
+                        "read_to_buffer returns under %s after the refill and before the test for an empty window: a refill that stored nothing " \
+                        "(an unreadable stream that is not at its end) leaves m_p == m_end and the caller reads stale buffer bytes" % show_f(g)
     if post_ok or pre_ok:
         return True, leafs[idx_end][0].get("l", fn["line"]), \
             "a refill that obtained 0 bytes leaves by throw (%s)" % ("test after the read" if post_ok else "peek()==EOF before the read")
